@@ -316,6 +316,17 @@ pub fn check_last_step_hook<T: LabelType>(
     hist: &[SOp],
     hook: Option<StateHook<T>>,
 ) -> Result<String, Violation> {
+    let note = || format!("AAFramework<{}> from {} during [{}]", kind, init.name(), hist.iter().map(|o| o.short()).collect::<Vec<_>>().join(" "));
+    crate::mem::with_note(&note, || check_last_step_hook_inner(kind, labels, init, hist, hook))
+}
+
+fn check_last_step_hook_inner<T: LabelType>(
+    kind: &str,
+    labels: &[T],
+    init: Init,
+    hist: &[SOp],
+    hook: Option<StateHook<T>>,
+) -> Result<String, Violation> {
     let labels_desc = format!("{:?}", labels);
     let (mut af, mut rf) = make(init, labels);
     let n = hist.len();
